@@ -1,4 +1,6 @@
-(* C01: om2qu_single (generated) inverts qu2om_single (generated) over R. *)
+(* C01: om2qu_single (generated) inverts qu2om_single (generated) over R,
+   on both hemispheres and -- after repair 86e5199 -- for rotations by exactly
+   180 degrees. *)
 From Coq Require Import Reals ZArith Lra Nsatz Bool.
 From Verif Require Import Scalar RInst QuatKernels Conversions Quat QuatAlg.
 Local Open Scope R_scope.
@@ -14,112 +16,198 @@ Qed.
 (* no component of q lies in the (0, sqrt(eps9)/2) band that om2qu zeroes *)
 Definition clear_of_band (x : R) : Prop := 4 * (x * x) < eps9 -> x = 0.
 
-Ltac norm_almost a b c d :=
-  repeat match goal with
-  | |- context [Rltb ?x (1 / 1000000000)] =>
-      lazymatch x with
-      | 4 * (_ * _) => fail
-      | _ => first [ replace x with (4 * (a * a)) by lra
-                   | replace x with (4 * (b * b)) by lra
-                   | replace x with (4 * (c * c)) by lra
-                   | replace x with (4 * (d * d)) by lra ]
-      end
-  end.
+(* ---- a structured specification that the generated term is CONVERTIBLE to --- *)
+Definition c0 (A : R) : R := if Rltb A (1 / 1000000000) then 0 else 1 / 2 * sqrt A.
+Definition cs (X s1 s2 : R) : R :=
+  if Rltb X (1 / 1000000000) then 0
+  else if Rltb s1 s2 then -1 / 2 * sqrt X else 1 / 2 * sqrt X.
 
-Lemma om2qu_qu2om_pos a b c d :
-  a * a + b * b + c * c + d * d = 1 -> 0 < a ->
-  clear_of_band a -> clear_of_band b -> clear_of_band c -> clear_of_band d ->
-  om2qu ROps (qu2om ROps (a, b, c, d)) = (a, b, c, d).
+Definition om2qu_spec (om00 om01 om02 om10 om11 om12 om20 om21 om22 : R) : quat (T:=R) :=
+  let A := 1 + om00 + om11 + om22 in
+  let B := 1 + om00 - om11 - om22 in
+  let C := 1 - om00 + om11 - om22 in
+  let D := 1 - om00 - om11 + om22 in
+  let Q0 := c0 A in
+  let Q1 := cs B om21 om12 in let Q2 := cs C om02 om20 in let Q3 := cs D om10 om01 in
+  let b := Rabs Q1 in let c := Rabs Q2 in let d := Rabs Q3 in
+  let q1 := if Rltb A (1 / 1000000000)
+            then (if Rleb c b && Rleb d b then b
+                  else if Rleb d c then (if Rltb (om01 + om10) 0 then - b else b)
+                       else (if Rltb (om02 + om20) 0 then - b else b))
+            else Q1 in
+  let q2 := if Rltb A (1 / 1000000000)
+            then (if Rleb c b && Rleb d b then (if Rltb (om01 + om10) 0 then - c else c)
+                  else if Rleb d c then c
+                       else (if Rltb (om12 + om21) 0 then - c else c))
+            else Q2 in
+  let q3 := if Rltb A (1 / 1000000000)
+            then (if Rleb c b && Rleb d b then (if Rltb (om02 + om20) 0 then - d else d)
+                  else if Rleb d c then (if Rltb (om12 + om21) 0 then - d else d)
+                       else d)
+            else Q3 in
+  let n := sqrt (Q0 * Q0 + q1 * q1 + q2 * q2 + q3 * q3) in
+  (Q0 / n, q1 / n, q2 / n, q3 / n).
+
+Lemma om2qu_is_spec om00 om01 om02 om10 om11 om12 om20 om21 om22 :
+  om2qu_single ROps om00 om01 om02 om10 om11 om12 om20 om21 om22
+  = om2qu_spec om00 om01 om02 om10 om11 om12 om20 om21 om22.
+Proof. reflexivity. Qed.
+
+(* ---- the entries of qu2om for a unit quaternion --------------------------- *)
+Section Unit.
+Variables a b c d : R.
+Hypothesis Hu : a * a + b * b + c * c + d * d = 1.
+Hypothesis Ga : clear_of_band a.
+Hypothesis Gb : clear_of_band b.
+Hypothesis Gc : clear_of_band c.
+Hypothesis Gd : clear_of_band d.
+
+Let qq := a * a - (b * b + c * c + d * d).
+Let m00 := qq + 2 * (b * b). Let m01 := 2 * (b * c - a * d). Let m02 := 2 * (b * d + a * c).
+Let m10 := 2 * (b * c + a * d). Let m11 := qq + 2 * (c * c). Let m12 := 2 * (c * d - a * b).
+Let m20 := 2 * (b * d - a * c). Let m21 := 2 * (c * d + a * b). Let m22 := qq + 2 * (d * d).
+
+Lemma qu2om_entries : qu2om ROps (a, b, c, d) = ((m00, m01, m02), (m10, m11, m12), (m20, m21, m22)).
+Proof. unfold qu2om, qu2om_single. rsimpl. reflexivity. Qed.
+
+Lemma almost_a : 1 + m00 + m11 + m22 = 4 * (a * a). Proof. unfold m00, m11, m22, qq. lra. Qed.
+Lemma almost_b : 1 + m00 - m11 - m22 = 4 * (b * b). Proof. unfold m00, m11, m22, qq. lra. Qed.
+Lemma almost_c : 1 - m00 + m11 - m22 = 4 * (c * c). Proof. unfold m00, m11, m22, qq. lra. Qed.
+Lemma almost_d : 1 - m00 - m11 + m22 = 4 * (d * d). Proof. unfold m00, m11, m22, qq. lra. Qed.
+
+(* signed component for x with "sign tests" equivalent to a*x < 0 *)
+Lemma cs_pos x s1 s2 : clear_of_band x -> 0 < a -> (s1 < s2 <-> a * x < 0) -> cs (4 * (x * x)) s1 s2 = x.
 Proof.
-  intros Hu Ha Ga Gb Gc Gd. unfold clear_of_band, eps9 in *.
-  unfold om2qu, qu2om, qu2om_single, om2qu_single. cbv zeta. rsimpl.
-  norm_almost a b c d.
-  (* first component *)
-  assert (C0 : (if Rltb (4 * (a * a)) (1 / 1000000000) then 0
-                else 1 / 2 * sqrt (4 * (a * a))) = a).
-  { destruct (Rltb (4 * (a * a)) (1 / 1000000000)) eqn:E.
-    - apply Rltb_true in E. specialize (Ga E). lra.
-    - rewrite sqrt_4sq, Rabs_right by lra. lra. }
-  rewrite !C0.
-  assert (C1 : (if Rltb (4 * (b * b)) (1 / 1000000000) then 0
-                else if Rltb (2 * (c * d + a * b)) (2 * (c * d - a * b))
-                     then -1 / 2 * sqrt (4 * (b * b)) else 1 / 2 * sqrt (4 * (b * b))) = b).
-  { destruct (Rltb (4 * (b * b)) (1 / 1000000000)) eqn:E.
-    - apply Rltb_true in E. symmetry; auto.
-    - rewrite sqrt_4sq.
-      destruct (Rltb (2 * (c * d + a * b)) (2 * (c * d - a * b))) eqn:S.
-      + apply Rltb_true in S. assert (b < 0) by nra. rewrite Rabs_left by lra. lra.
-      + apply Rltb_false in S. assert (0 <= b) by nra. rewrite Rabs_right by lra. lra. }
-  rewrite !C1.
-  assert (C2 : (if Rltb (4 * (c * c)) (1 / 1000000000) then 0
-                else if Rltb (2 * (b * d + a * c)) (2 * (b * d - a * c))
-                     then -1 / 2 * sqrt (4 * (c * c)) else 1 / 2 * sqrt (4 * (c * c))) = c).
-  { destruct (Rltb (4 * (c * c)) (1 / 1000000000)) eqn:E.
-    - apply Rltb_true in E. symmetry; auto.
-    - rewrite sqrt_4sq.
-      destruct (Rltb (2 * (b * d + a * c)) (2 * (b * d - a * c))) eqn:S.
-      + apply Rltb_true in S. assert (c < 0) by nra. rewrite Rabs_left by lra. lra.
-      + apply Rltb_false in S. assert (0 <= c) by nra. rewrite Rabs_right by lra. lra. }
-  rewrite !C2.
-  assert (C3 : (if Rltb (4 * (d * d)) (1 / 1000000000) then 0
-                else if Rltb (2 * (b * c + a * d)) (2 * (b * c - a * d))
-                     then -1 / 2 * sqrt (4 * (d * d)) else 1 / 2 * sqrt (4 * (d * d))) = d).
-  { destruct (Rltb (4 * (d * d)) (1 / 1000000000)) eqn:E.
-    - apply Rltb_true in E. symmetry; auto.
-    - rewrite sqrt_4sq.
-      destruct (Rltb (2 * (b * c + a * d)) (2 * (b * c - a * d))) eqn:S.
-      + apply Rltb_true in S. assert (d < 0) by nra. rewrite Rabs_left by lra. lra.
-      + apply Rltb_false in S. assert (0 <= d) by nra. rewrite Rabs_right by lra. lra. }
-  rewrite !C3.
-  replace (a * a + b * b + c * c + d * d) with 1 by lra.
-  rewrite sqrt_1. tuple_eq; field.
+  intros Gx Ha Hs. unfold cs, clear_of_band, eps9 in *.
+  destruct (Rltb (4 * (x * x)) (1 / 1000000000)) eqn:E.
+  - apply Rltb_true in E. symmetry; auto.
+  - rewrite sqrt_4sq. destruct (Rltb s1 s2) eqn:S.
+    + apply Rltb_true in S. apply Hs in S. assert (x < 0) by nra. rewrite Rabs_left by lra. lra.
+    + apply Rltb_false in S. assert (0 <= x).
+      { destruct (Rle_dec 0 x); [assumption|exfalso]. assert (a * x < 0) by nra. apply Hs in H. lra. }
+      rewrite Rabs_right by lra. lra.
 Qed.
 
-(* both hemispheres: the matrix round trip returns q or -q *)
+(* for a = 0 the antisymmetric tests are all false: components are |x| *)
+Lemma cs_zero x s : clear_of_band x -> cs (4 * (x * x)) s s = Rabs x.
+Proof.
+  intros Gx. unfold cs, clear_of_band, eps9 in *.
+  destruct (Rltb (4 * (x * x)) (1 / 1000000000)) eqn:E.
+  - apply Rltb_true in E. rewrite (Gx E), Rabs_R0. reflexivity.
+  - rewrite sqrt_4sq. destruct (Rltb s s) eqn:S; [apply Rltb_true in S; lra|]. lra.
+Qed.
+
+(* positive scalar part: exact inverse *)
+Lemma om2qu_qu2om_pos : 0 < a -> om2qu ROps (qu2om ROps (a, b, c, d)) = (a, b, c, d).
+Proof.
+  intros Ha. rewrite qu2om_entries. unfold om2qu. rewrite om2qu_is_spec. unfold om2qu_spec.
+  rewrite almost_a, almost_b, almost_c, almost_d.
+  assert (EA : Rltb (4 * (a * a)) (1 / 1000000000) = false).
+  { apply Rltb_false. unfold clear_of_band, eps9 in Ga.
+    destruct (Rle_dec (1 / 1000000000) (4 * (a * a))); [assumption|exfalso].
+    assert (a = 0) by (apply Ga; lra). lra. }
+  rewrite EA.
+  assert (E0 : c0 (4 * (a * a)) = a).
+  { unfold c0. rewrite EA, sqrt_4sq, Rabs_right by lra. lra. }
+  rewrite E0.
+  rewrite (cs_pos b m21 m12 Gb Ha) by (unfold m21, m12; split; intros; nra).
+  rewrite (cs_pos c m02 m20 Gc Ha) by (unfold m02, m20; split; intros; nra).
+  rewrite (cs_pos d m10 m01 Gd Ha) by (unfold m10, m01; split; intros; nra).
+  rewrite Hu, sqrt_1. repeat (apply f_equal2); field.
+Qed.
+End Unit.
+
+(* relative sign from the symmetric part: for a pivot p <> 0,
+   (if 4 p y < 0 then -|y| else |y|) is y when p > 0 and -y when p < 0 *)
+Lemma rel_sign p y s : p <> 0 -> s = 4 * (p * y) ->
+  (if Rltb s 0 then - Rabs y else Rabs y) = (if Rlt_dec 0 p then y else - y).
+Proof.
+  intros Hp ->. destruct (Rltb (4 * (p * y)) 0) eqn:E; destruct (Rlt_dec 0 p) as [Hpos|Hneg].
+  - apply Rltb_true in E. assert (y < 0) by nra. rewrite Rabs_left by lra. lra.
+  - apply Rltb_true in E. assert (0 < y) by nra. rewrite Rabs_right by lra. lra.
+  - apply Rltb_false in E. assert (0 <= y) by nra. rewrite Rabs_right by lra. lra.
+  - apply Rltb_false in E. assert (y <= 0) by nra. destruct (Req_dec y 0) as [->|]; [rewrite Rabs_R0; lra|].
+    rewrite Rabs_left by lra. lra.
+Qed.
+
+Lemma Rabs_eq_0 x : Rabs x = 0 -> x = 0.
+Proof. intros H. destruct (Req_dec x 0) as [|Hn]; [assumption|]. apply Rabs_no_R0 in Hn. contradiction. Qed.
+
+Lemma pivot_abs p : (if Rlt_dec 0 p then p else - p) = Rabs p.
+Proof. destruct (Rlt_dec 0 p); [rewrite Rabs_right; lra|]. destruct (Req_dec p 0) as [->|]; [rewrite Rabs_R0; lra|]. rewrite Rabs_left; lra. Qed.
+
+(* rotation by exactly 180 degrees (a = 0): +-q is recovered *)
+Lemma om2qu_qu2om_pi b c d :
+  b * b + c * c + d * d = 1 -> clear_of_band b -> clear_of_band c -> clear_of_band d ->
+  om2qu ROps (qu2om ROps (0, b, c, d)) = (0, b, c, d) \/
+  om2qu ROps (qu2om ROps (0, b, c, d)) = qneg ROps (0, b, c, d).
+Proof.
+  intros Hu Gb Gc Gd.
+  assert (Hu0 : 0 * 0 + b * b + c * c + d * d = 1) by lra.
+  rewrite (qu2om_entries 0 b c d). unfold om2qu. rewrite om2qu_is_spec. unfold om2qu_spec.
+  rewrite (almost_a 0 b c d Hu0), (almost_b 0 b c d Hu0), (almost_c 0 b c d Hu0), (almost_d 0 b c d Hu0).
+  assert (EA : Rltb (4 * (0 * 0)) (1 / 1000000000) = true) by (apply Rltb_true; lra).
+  rewrite EA. unfold c0. rewrite EA.
+  replace (2 * (c * d + 0 * b)) with (2 * (c * d - 0 * b)) by ring.
+  replace (2 * (b * d + 0 * c)) with (2 * (b * d - 0 * c)) by ring.
+  replace (2 * (b * c + 0 * d)) with (2 * (b * c - 0 * d)) by ring.
+  rewrite (cs_zero b _ Gb), (cs_zero c _ Gc), (cs_zero d _ Gd), !Rabs_Rabsolu.
+  set (s01 := 2 * (b * c - 0 * d) + 2 * (b * c - 0 * d)).
+  set (s02 := 2 * (b * d - 0 * c) + 2 * (b * d - 0 * c)).
+  set (s12 := 2 * (c * d - 0 * b) + 2 * (c * d - 0 * b)).
+  assert (N1 : forall x y z : R, x * x + y * y + z * z = 1 ->
+                0 * 0 + x * x + y * y + z * z = 1) by (intros; lra).
+  unfold qneg; rsimpl.
+  destruct (Rleb (Rabs c) (Rabs b) && Rleb (Rabs d) (Rabs b)) eqn:E1.
+  - (* b is the pivot *)
+    apply andb_prop in E1. destruct E1 as [E1 E2]. apply Rleb_true in E1, E2.
+    assert (Hb : b <> 0).
+    { intros ->. rewrite Rabs_R0 in E1, E2. pose proof (Rabs_pos c). pose proof (Rabs_pos d).
+      assert (Rabs c = 0) by lra. assert (Rabs d = 0) by lra.
+      apply Rabs_eq_0 in H1. apply Rabs_eq_0 in H2. subst. lra. }
+    rewrite (rel_sign b c s01 Hb) by (unfold s01; ring).
+    rewrite (rel_sign b d s02 Hb) by (unfold s02; ring).
+    rewrite <- (pivot_abs b).
+    destruct (Rlt_dec 0 b); [left|right];
+      (replace (0 * 0 + _ + _ + _) with 1 by lra); rewrite sqrt_1; repeat (apply f_equal2); field.
+  - destruct (Rleb (Rabs d) (Rabs c)) eqn:E2.
+    + (* c is the pivot *)
+      apply Rleb_true in E2.
+      assert (Hc : c <> 0).
+      { intros ->. rewrite Rabs_R0 in E2. pose proof (Rabs_pos d). assert (Rabs d = 0) by lra.
+        apply Rabs_eq_0 in H0. subst.
+        apply andb_false_iff in E1. rewrite Rabs_R0 in E1. destruct E1 as [E1|E1]; apply Rleb_false in E1;
+          pose proof (Rabs_pos b); lra. }
+      rewrite (rel_sign c b s01 Hc) by (unfold s01; ring).
+      rewrite (rel_sign c d s12 Hc) by (unfold s12; ring).
+      rewrite <- (pivot_abs c).
+      destruct (Rlt_dec 0 c); [left|right];
+        (replace (0 * 0 + _ + _ + _) with 1 by lra); rewrite sqrt_1; repeat (apply f_equal2); field.
+    + (* d is the pivot *)
+      apply Rleb_false in E2.
+      assert (Hd : d <> 0) by (intros ->; rewrite Rabs_R0 in E2; pose proof (Rabs_pos c); lra).
+      rewrite (rel_sign d b s02 Hd) by (unfold s02; ring).
+      rewrite (rel_sign d c s12 Hd) by (unfold s12; ring).
+      rewrite <- (pivot_abs d).
+      destruct (Rlt_dec 0 d); [left|right];
+        (replace (0 * 0 + _ + _ + _) with 1 by lra); rewrite sqrt_1; repeat (apply f_equal2); field.
+Qed.
+
+(* FULL: every unit quaternion with no component in the zeroed band is
+   recovered up to sign -- both hemispheres and 180 degree rotations *)
 Lemma om2qu_qu2om (q : quat (T:=R)) :
   qnorm2 ROps q = 1 ->
   (let '(a, b, c, d) := q in
-   a <> 0 /\ clear_of_band a /\ clear_of_band b /\ clear_of_band c /\ clear_of_band d) ->
+   clear_of_band a /\ clear_of_band b /\ clear_of_band c /\ clear_of_band d) ->
   om2qu ROps (qu2om ROps q) = q \/ om2qu ROps (qu2om ROps q) = qneg ROps q.
 Proof.
-  destruct q as [[[a b] c] d]. intros Hu (Ha & Ga & Gb & Gc & Gd).
+  destruct q as [[[a b] c] d]. intros Hu (Ga & Gb & Gc & Gd).
   unfold qnorm2 in Hu; cbv [ROps o_add o_mul] in Hu.
   destruct (Rlt_dec 0 a) as [Hp|Hn].
-  - left. apply om2qu_qu2om_pos; auto; lra.
-  - right. assert (Hneg : 0 < - a) by lra.
-    rewrite <- (qu2om_neg (a, b, c, d)). unfold qneg; rsimpl.
-    apply om2qu_qu2om_pos; auto; unfold clear_of_band in *; try nra.
-Qed.
-
-(* The clause FAILS for exact 180-degree rotations with a mixed-sign axis:
-   q = (0, 3/5, -4/5, 0) comes back as (0, 3/5, 4/5, 0). *)
-Lemma om2qu_qu2om_pi_refuted :
-  exists q : quat (T:=R), qnorm2 ROps q = 1 /\
-    om2qu ROps (qu2om ROps q) <> q /\ om2qu ROps (qu2om ROps q) <> qneg ROps q.
-Proof.
-  exists (0, 3/5, -4/5, 0).
-  assert (E : om2qu ROps (qu2om ROps (0, 3/5, -4/5, 0)) = (0, 3/5, 4/5, 0)).
-  { unfold om2qu, qu2om, qu2om_single, om2qu_single. cbv zeta. rsimpl.
-    repeat match goal with
-    | |- context [Rltb ?x ?y] =>
-        let b := fresh "b" in
-        destruct (Rltb x y) eqn:b;
-        [ apply Rltb_true in b; try (exfalso; lra) | apply Rltb_false in b; try (exfalso; lra) ]
-    end.
-    replace (1 + (0 * 0 - (3 / 5 * (3 / 5) + -4 / 5 * (-4 / 5) + 0 * 0) + 2 * (3 / 5 * (3 / 5))) -
-             (0 * 0 - (3 / 5 * (3 / 5) + -4 / 5 * (-4 / 5) + 0 * 0) + 2 * (-4 / 5 * (-4 / 5))) -
-             (0 * 0 - (3 / 5 * (3 / 5) + -4 / 5 * (-4 / 5) + 0 * 0) + 2 * (0 * 0)))
-      with (4 * (3/5 * (3/5))) by field.
-    replace (1 - (0 * 0 - (3 / 5 * (3 / 5) + -4 / 5 * (-4 / 5) + 0 * 0) + 2 * (3 / 5 * (3 / 5))) +
-             (0 * 0 - (3 / 5 * (3 / 5) + -4 / 5 * (-4 / 5) + 0 * 0) + 2 * (-4 / 5 * (-4 / 5))) -
-             (0 * 0 - (3 / 5 * (3 / 5) + -4 / 5 * (-4 / 5) + 0 * 0) + 2 * (0 * 0)))
-      with (4 * (4/5 * (4/5))) by field.
-    rewrite !sqrt_4sq, !Rabs_right by lra.
-    replace (0 * 0 + 1 / 2 * (2 * (3 / 5)) * (1 / 2 * (2 * (3 / 5))) +
-             1 / 2 * (2 * (4 / 5)) * (1 / 2 * (2 * (4 / 5))) + 0 * 0) with 1 by field.
-    rewrite sqrt_1. tuple_eq; field. }
-  rewrite E. repeat split.
-  - unfold qnorm2; rsimpl; field.
-  - intros H. injection H; intros; lra.
-  - unfold qneg; rsimpl. intros H. injection H; intros; lra.
+  - left. apply om2qu_qu2om_pos; auto.
+  - destruct (Req_dec a 0) as [->|Hne].
+    + apply om2qu_qu2om_pi; auto. lra.
+    + right. assert (Hneg : 0 < - a) by lra.
+      rewrite <- (qu2om_neg (a, b, c, d)). unfold qneg; rsimpl.
+      apply om2qu_qu2om_pos; auto; unfold clear_of_band in *; try nra.
 Qed.
